@@ -21,7 +21,8 @@ PROPERTY = "C27"
 LEVEL = "model_checking"
 RULE = (
     "U-PROB instances without the inv slot (levels 0,1; level 2: core pairs on one action or an "
-    "action slot with goal/init; thorough all core pairs); all valid plans of 2..k distinct ground "
+    "action slot with goal/init; thorough all core pairs) plus the 36 problems of the family intarg "
+    "(integer-indexed fluents written / read through arithmetic argument expressions); all valid plans of 2..k distinct ground "
     "actions; states = plan prefixes executed, transitions = steps of linearisations executed; "
     "non-trivial = plan whose deordering has more than one linearisation"
 )
@@ -54,15 +55,71 @@ def _ids(tier):
 
 
 def shards(tier, seed):
-    return su.chunk_cases(_ids(tier), seed, per_level_chunks={0: 1, 1: 16, 2: 64})
+    return [{"level": 0, "family": "intarg"}] + su.chunk_cases(_ids(tier), seed, per_level_chunks={0: 1, 1: 16, 2: 64})
 
 
 def run_shard(shard, tier, seed):
     acc = Acc()
+    if shard.get("family") == "intarg":
+        for i in range(len(INTARG)):
+            check_intarg(i, 3, acc)
+        return acc
     for cid in shard["cids"]:
         cid = tuple(tuple(x) for x in cid)
         check_case(cid, _k(cid, tier), acc)
     return acc
+
+
+# family intarg: fluents indexed by a bounded integer, written / read through ARITHMETIC argument
+# expressions of integer action parameters (the ground fluent only appears after simplification)
+def _intarg_specs():
+    I = lambda k: ("i", k)
+    P = lambda n: ("p", n)
+    wargs = [("i+1", ("+", P("i"), I(1))), ("2-i", ("-", I(2), P("i"))), ("i*2", ("*", P("i"), I(2)))]
+    rargs = [("j", P("j")), ("2-j", ("-", I(2), P("j")))]
+    out = []
+    for wn, wa in wargs:
+        for tgt in ("cell", "cnt"):
+            for rn, ra in rargs:
+                for second in ("read-pre", "write", "read-value"):
+                    wf, rf = ("f", tgt, wa), ("f", tgt, ra)
+                    if tgt == "cell":
+                        weff = ("assign", wf, ("b", True), None, ())
+                        rpre = rf
+                        weff2 = ("assign", rf, ("b", False), None, ())
+                        veff = ("assign", ("f", "b"), rf, None, ())
+                    else:
+                        weff = ("inc", wf, I(1), None, ())
+                        rpre = ("le", I(1), rf)
+                        weff2 = ("assign", rf, I(2), None, ())
+                        veff = ("assign", ("f", "n"), rf, None, ())
+                    if second == "read-pre":
+                        a2 = {"name": "snd", "params": (("j", ("int", 0, 2)),), "pre": (rpre,), "eff": (("assign", ("f", "b"), ("b", True), None, ()),)}
+                    elif second == "write":
+                        a2 = {"name": "snd", "params": (("j", ("int", 0, 2)),), "pre": (), "eff": (weff2,)}
+                    else:
+                        a2 = {"name": "snd", "params": (("j", ("int", 0, 2)),), "pre": (), "eff": (veff,)}
+                    ps = {
+                        "name": "intarg", "types": (("T", None),), "objects": (("o1", "T"),),
+                        "fluents": (
+                            ("b", ("bool",), (), ("b", False)),
+                            ("n", ("int", 0, 3), (), ("i", 0)),
+                            ("cell", ("bool",), (("k", ("int", 0, 2)),), ("b", False)),
+                            ("cnt", ("int", 0, 3), (("k", ("int", 0, 2)),), ("i", 0)),
+                        ),
+                        "actions": ({"name": "fst", "params": (("i", ("int", 0, 1)),), "pre": (), "eff": (weff,)}, a2),
+                        "goals": (), "ifuns": (), "init": (), "metric": None, "traj": (),
+                    }
+                    out.append(("intarg:%s(%s)/%s(%s)" % (tgt, wn, second, rn), ps))
+    return out
+
+
+INTARG = _intarg_specs()
+
+
+def check_intarg(i, k, acc):
+    lab, ps = INTARG[i]
+    check_spec(ps, lab, {"intarg": i, "k": k}, k, acc)
 
 
 def _k(cid, tier):
@@ -77,6 +134,9 @@ def _k(cid, tier):
 
 def replay(case):
     acc = Acc()
+    if "intarg" in case:
+        check_intarg(case["intarg"], case.get("k", 3), acc)
+        return [(fp, e["cases"][0]["what"]) for fp, e in acc.viol.items()]
     check_case(tuple(tuple(x) for x in case["cid"]), case.get("k", 3), acc)
     return [(fp, e["cases"][0]["what"]) for fp, e in acc.viol.items()]
 
@@ -85,11 +145,13 @@ finalize = su.prune_supersets
 
 
 def check_case(cid, k, acc):
+    check_spec(uprob.make(dict(cid)), uprob_label(cid), {"cid": tj(cid), "k": k}, k, acc)
+
+
+def check_spec(ps, lab, case, k, acc):
     from unified_planning.plans import SequentialPlan, ActionInstance, PlanKind
     from unified_planning.exceptions import UPUsageError
 
-    ps = uprob.make(dict(cid))
-    lab = uprob_label(cid)
     b = su.build(ps, acc)
     if b is None:
         return
@@ -109,7 +171,7 @@ def check_case(cid, k, acc):
         acc.violation(
             "%s|%s" % (sub, lab),
             what,
-            {"cid": tj(cid), "k": k, "plan": [[gas[j][0], list(gas[j][1])] for j in plan], "linearisation": lin},
+            dict(case, plan=[[gas[j][0], list(gas[j][1])] for j in plan], linearisation=lin),
         )
 
     n = 0
@@ -187,4 +249,4 @@ def check_case(cid, k, acc):
                 break
         if not bad:
             acc.count("traces", len(lins))
-    acc.sample({"cid": tj(cid), "valid_plans_deordered": n})
+    acc.sample(dict(case, valid_plans_deordered=n))
